@@ -542,6 +542,13 @@ pub fn run_c02(o: &Opts) -> Report {
             values.push((LNarsese::Term(LTerm::new_statement("有", LTerm::new_atom("", "x具"), LTerm::new_atom("", "y"))), true));
             values.push((LNarsese::Term(LTerm::new_statement("是", LTerm::new_atom("", "x将"), LTerm::new_atom("", "y"))), true));
         }
+        // one wide value: > 128 non-atomic components in one compound / set (depth counters, recursion guards)
+        {
+            let atom = |i: usize| LTerm::new_atom("", if fm.idx == 2 { format!("甲{}", i) } else { format!("w{}", i) });
+            let items: Vec<LTerm> = (0..140).map(|i| if i % 2 == 0 { LTerm::new_set(v.set_brackets[0].0.clone(), vec![atom(i)], v.set_brackets[0].1.clone()) } else { LTerm::new_statement(v.copulas[0].clone(), atom(i), atom(0)) }).collect();
+            values.push((LNarsese::Term(LTerm::new_compound(v.connecters[0].clone(), items.clone())), true));
+            values.push((LNarsese::Term(LTerm::new_set(v.set_brackets[0].0.clone(), items, v.set_brackets[0].1.clone())), true));
+        }
         for (x, intended) in values {
             let Some(s) = cx.fmt_case(&fm, &x) else {
                 cx.fail("values", "formatting a lexical value panicked", format!("[{}] {:?}", fm.name, x), "a string".into(), "PANIC".into(), None);
